@@ -12,6 +12,10 @@ MC = {
     "quick": dict(MaxH=5, G=100, N=4, MaxInvalid=1, MaxLen=5, Tickets="FALSE", Weights="{1, 2}"),
     "thorough": dict(MaxH=6, G=100, N=5, MaxInvalid=1, MaxLen=5, Tickets="FALSE", Weights="{1, 2}"),
 }
+MC_SHORT = {
+    "quick": dict(MaxH=5, G=1, N=4, MaxInvalid=1, MaxLen=5, Tickets="FALSE", Weights="{1, 2}"),
+    "thorough": dict(MaxH=5, G=1, N=5, MaxInvalid=1, MaxLen=5, Tickets="FALSE", Weights="{1, 2}"),
+}
 GEN = {
     "quick": [dict(MaxH=5, G=100, N=4, MaxInvalid=1, MaxLen=5, Tickets="FALSE", Weights="{1, 2}")],
     "thorough": [dict(MaxH=5, G=100, N=4, MaxInvalid=1, MaxLen=5, Tickets="FALSE", Weights="{1, 2}"),
@@ -40,7 +44,7 @@ MAXH_TRACE = 16
 def mc(wd, t):
     cfg = os.path.join(wd, "MC_Chain.cfg")
     write_cfg(cfg, "MCSpec", MC[t],
-              invariants=["QuiescentConsistent", "MicroEqualsBig", "StepsBounded"],
+              invariants=["QuiescentConsistent", "MicroEqualsBig", "StepsBounded", "RejectedLeavesNoTrace", "NoPanic"],
               properties=["TipNeverLower", "OrphanInert", "Terminates"])
     rc, out = tlc("MC_Chain.tla", cfg, wd, workers=12, timeout=3000, extra=["-coverage", "1"], heap="12g")
     if not tlc_ok(out):
@@ -50,7 +54,29 @@ def mc(wd, t):
     for a in ("MCUnwind", "MCWind", "MCUnNew", "MCRewind", "Deliver"):
         if cov.get(a, 0) == 0:
             raise ToolError("MC_Chain: action %s never taken (vacuous model)" % a)
-    return dist, gen, cov
+    # short retention window (purge at 2G, ring of 2G slots): the model follows the code, including the two
+    # deviations recorded as known findings - those two invariants MUST be violated, everything else holds
+    cfg = os.path.join(wd, "MC_Chain_short.cfg")
+    write_cfg(cfg, "MCSpec", MC_SHORT[t],
+              invariants=["QuiescentConsistent", "MicroEqualsBig", "StepsBounded"],
+              properties=["TipNeverLower", "OrphanInert", "Terminates"])
+    rc, out = tlc("MC_Chain.tla", cfg, wd, workers=12, timeout=3000, extra=["-coverage", "1"], heap="12g")
+    if not tlc_ok(out):
+        raise ToolError("MC_Chain (short window): " + tlc_error_summary(out))
+    d2, g2 = tlc_stats(out)
+    cov2 = action_coverage(out)
+    if cov2.get("MCCrash", 0) == 0:
+        raise ToolError("MC_Chain (short window): the crash step was never taken")
+    cov["MCCrash"] = cov2.get("MCCrash", 0)
+    for inv in ("RejectedLeavesNoTraceRooted", "NoPanic"):
+        cfg = os.path.join(wd, "MC_Chain_short_%s.cfg" % inv)
+        write_cfg(cfg, "MCSpec", MC_SHORT[t], invariants=[inv])
+        rc, out = tlc("MC_Chain.tla", cfg, wd, workers=12, timeout=3000, heap="12g")
+        if ("Invariant %s is violated" % inv) not in out:
+            raise ToolError("MC_Chain (short window): %s is not violated - the model no longer reproduces the known "
+                            "findings C04-failed-reorg-purges-ahead / C04-panic-rewinding-a-purged-block" % inv)
+    log("MC_Chain short window: %d distinct states; RejectedLeavesNoTraceRooted and NoPanic violated as recorded" % d2)
+    return dist + d2, gen + g2, cov
 
 
 def mc_gt(wd, t, rnd):
@@ -184,6 +210,84 @@ def deep_scenarios(rnd, n, max_blocks=12, invalid_p=0.35, tickets=False):
     return out
 
 
+def short_window_scenarios(rnd, n):
+    """Chains that outgrow a retention window of 1..3 blocks (purge at 2G, block ring of 2G slots wrapping several
+    times): a main chain delivered in order, a competing branch forking a few blocks below some point of it,
+    valid or with one invalid block, delivered in order / reversed / before the main chain catches up; plus
+    random trees."""
+    out = []
+    for _ in range(n):
+        g = rnd.choice([1, 2, 2, 3])
+        if rnd.random() < 0.3:
+            s = deep_scenarios(rnd, 1, max_blocks=13)[0]
+            s["g"] = g
+            out.append(s)
+            continue
+        main_len = rnd.randint(2 * g + 1, min(2 * g + 6, 11))
+        if rnd.random() < 0.3:
+            # a candidate chain sitting on the tip, part of it delivered before the tip itself (stored, not on
+            # the chain), failing at its second or a later block - half of the time placed so that the first
+            # candidate block sits in slot 0 of the block ring (id a multiple of 2G)
+            if rnd.random() < 0.5:
+                fits = [m for m in range(2 * g + 1, 12) if (m + 1) % (2 * g) == 0]
+                main_len = rnd.choice(fits)
+            blocks = [dict(id=1, parent=0, gt=False, w=2, ok=True)]
+            for b in range(2, main_len + 1):
+                blocks.append(dict(id=b, parent=b - 1, gt=(rnd.random() < 0.8), w=rnd.choice([2, 2, 3]), ok=True))
+            n_side = rnd.randint(2, 4)
+            side = list(range(main_len + 1, main_len + n_side + 1))
+            for i, b in enumerate(side):
+                blocks.append(dict(id=b, parent=b - 1, gt=(rnd.random() < 0.8), w=rnd.choice([2, 3]), ok=True))
+            j = rnd.randint(1, n_side - 1)
+            if rnd.random() < 0.8:
+                blocks[side[j] - 1]["ok"] = False
+                blocks[side[j] - 1]["bad"] = rnd.choice(["burnfee", "difficulty", "unpaid"])
+            early = rnd.randint(1, j)
+            pre = side[:early]
+            if rnd.random() < 0.5:
+                pre = pre[::-1]
+            order = [1] + list(range(2, main_len)) + pre + [main_len] + side[early:]
+            out.append(dict(blocks=blocks, order=order, g=g))
+            continue
+        blocks = [dict(id=1, parent=0, gt=False, w=2, ok=True)]
+        for b in range(2, main_len + 1):
+            blocks.append(dict(id=b, parent=b - 1, gt=(rnd.random() < 0.8), w=rnd.choice([2, 2, 3]), ok=True))
+        fork = rnd.randint(max(1, main_len - 6), main_len)
+        side_len = rnd.randint(1, min(7, 15 - main_len))
+        side = []
+        par = fork
+        nid = main_len
+        for i in range(side_len):
+            nid += 1
+            blocks.append(dict(id=nid, parent=par, gt=(rnd.random() < 0.8), w=rnd.choice([1, 2, 3]), ok=True))
+            side.append(nid)
+            par = nid
+        if rnd.random() < 0.6:
+            x = blocks[rnd.choice(side) - 1]
+            x["ok"] = False
+            x["bad"] = rnd.choice(["burnfee", "difficulty", "unpaid"])
+        main = list(range(2, main_len + 1))
+        mode = rnd.random()
+        if mode < 0.3:
+            order = [1] + main + side
+        elif mode < 0.45 and fork == main_len and len(side) >= 2:
+            # the child of the tip arrives before the tip: it stays a stored side block until its own child arrives
+            order = [1] + main[:-1] + [side[0], main[-1]] + side[1:]
+        elif mode < 0.6:
+            order = [1] + main + side[::-1]
+        elif mode < 0.8:
+            cut = rnd.randint(fork, main_len)
+            order = [1] + [b for b in main if b <= cut] + side + [b for b in main if b > cut]
+        else:
+            rest = main[fork - 1:] + side
+            rnd.shuffle(rest)
+            order = [1] + main[:fork - 1] + rest
+        if rnd.random() < 0.3:
+            order.insert(rnd.randrange(1, len(order) + 1), rnd.choice(order))
+        out.append(dict(blocks=blocks, order=order, g=g))
+    return out
+
+
 def gen(wd, t, rnd):
     scns = []
     for i, consts in enumerate(GEN[t]):
@@ -223,6 +327,7 @@ def run(pid, t, replay=None):
         log("MC_Chain: %d distinct states, %d generated" % (dist, gen_n))
         scns = gen(wd, t, rnd)
         scns += deep_scenarios(rnd, 300 if t == "quick" else 6000)
+        scns += short_window_scenarios(rnd, 250 if t == "quick" else 5000)
         if pid in ("C03", "C04"):
             d2, g2, s2 = mc_fork(wd, t, rnd)
             dist += d2
@@ -267,12 +372,31 @@ def run(pid, t, replay=None):
                 lines = lines[:last_reset]
             out.writelines(lines)
             os.remove(part)
-    cfg = os.path.join(wd, "ChainTrace.cfg")
-    write_cfg(cfg, "TraceSpec", dict(MaxH=MAXH_TRACE, G=100), invariants=["ReportBad"],
-              postcondition="TraceDone")
-    chunks, nev = split_trace(tpath, wd, 12000)
-    bad, consumed = validate_traces("ChainTrace.tla", cfg, chunks, wd, par=8)
-    log("TV: %d events in %d chunks, %d divergences (all properties)" % (consumed, len(chunks), len(bad)))
+    # the retention window is a constant of the specification: one validation run per window used
+    per_g = {}
+    cur = None
+    with open(tpath) as f:
+        for ln in f:
+            if '"ev":"Reset"' in ln:
+                cur = json.loads(ln)["g"]
+            per_g.setdefault(cur, []).append(ln)
+    bad = []
+    consumed = 0
+    nchunks = 0
+    for gval, lines in sorted(per_g.items()):
+        gpath = os.path.join(wd, "trace_g%d.ndjson" % gval)
+        with open(gpath, "w") as f:
+            f.writelines(lines)
+        cfg = os.path.join(wd, "ChainTrace_g%d.cfg" % gval)
+        write_cfg(cfg, "TraceSpec", dict(MaxH=MAXH_TRACE, G=gval), invariants=["ReportBad"],
+                  postcondition="TraceDone")
+        chunks, nev = split_trace(gpath, wd, 12000, prefix="chunk_g%d" % gval)
+        b2, c2 = validate_traces("ChainTrace.tla", cfg, chunks, wd, par=8)
+        bad += b2
+        consumed += c2
+        nchunks += len(chunks)
+    log("TV: %d events in %d chunks (windows %s), %d divergences (all properties)"
+        % (consumed, nchunks, sorted(per_g.keys()), len(bad)))
 
     known = load_known()
     mine = [b for b in bad if b["prop"] == pid]
